@@ -1,7 +1,7 @@
 """C05: timed and cancellable waits return for the stated reason, holding the lock."""
 from checks import e3check
 
-QUICK = ['e2_h_mu_wait_U2_R1', 'e2_h_cv_wait_U2_R1', 'mw_btimed_setb_R3']
-THOROUGH = ['cv_timed_siginside_R3', 'mw_btimed_setb_R4', 'cv_timed_sigafter_R3', 'mw_a_btimed_setab_R3', 'cv_timed_siginside_R4']
-scenarios, jobs, confirm, info = e3check.make('C05', QUICK, THOROUGH, '(a) E2 harness h_mu_wait / h_cv_wait: nsync_mu_wait_with_deadline and nsync_cv_wait_with_deadline run under arbitrary interference on the mutex word, with and without a timeout, entered in read or write mode: they return holding the mutex in the mode of entry (ghost mode from the guarantee). (b) E3 scenarios with a solver-chosen deadline and clock: the harness asserts at every return r==0 or ETIMEDOUT, ETIMEDOUT only with clock >= deadline, mu_wait returns 0 exactly when the condition is true, shadow occupancy counters.', ['nsync_mu_wait_with_deadline', 'mu_try_acquire_after_timeout_or_cancel', 'nsync_cv_wait_with_deadline_generic', 'nsync_sem_wait_with_cancel_'], ['cancellation notes (ECANCELED paths) are excluded from these scenarios: cancel_note is NULL'])
+QUICK = ['e2_h_mu_wait_U2_R1', 'mw_btimed_setb_R3']
+THOROUGH = ['e2_h_cv_wait_U2_R1', 'cv_timed_siginside_R3', 'mw_btimed_setb_R4', 'cv_timed_sigafter_R3', 'mw_a_btimed_setab_R3', 'cv_timed_siginside_R4']
+scenarios, jobs, confirm, info = e3check.make('C05', QUICK, THOROUGH, '(a) E2 harness h_mu_wait (quick) and h_cv_wait (thorough here; it also runs in the quick tier of C04): nsync_mu_wait_with_deadline and nsync_cv_wait_with_deadline run under arbitrary interference on the mutex word, with and without a timeout, entered in read or write mode: they return holding the mutex in the mode of entry (ghost mode from the guarantee). (b) E3 scenarios with a solver-chosen deadline and clock: the harness asserts at every return r==0 or ETIMEDOUT, ETIMEDOUT only with clock >= deadline, mu_wait returns 0 exactly when the condition is true, shadow occupancy counters.', ['nsync_mu_wait_with_deadline', 'mu_try_acquire_after_timeout_or_cancel', 'nsync_cv_wait_with_deadline_generic', 'nsync_sem_wait_with_cancel_'], ['cancellation notes (ECANCELED paths) are excluded from these scenarios: cancel_note is NULL'])
 WORKERS = 3     # each query needs 2-10 GB (cbmc + kissat): bounded parallelism keeps the machine out of swap / the OOM killer
